@@ -332,6 +332,10 @@ func SelectDimension(data any, dimensions []*IndexSelector) (any, error) {
 	switch index.GetType() {
 	case RANGE:
 		{
+			array, ok := data.([]any)
+			if !ok {
+				return nil, EXPECTATION_FAILED.Extend(fmt.Sprintf("failed to select range. expected an array but found %T", data))
+			}
 			index := index.GetRange()
 			begin := index[0]
 			if begin == -1 {
@@ -339,16 +343,23 @@ func SelectDimension(data any, dimensions []*IndexSelector) (any, error) {
 			}
 			end := index[1]
 			if end == -1 {
-				end = len(data.([]any))
+				end = len(array)
 			}
-			return SelectDimension(data.([]any)[begin:end], dimensions[1:])
+			if begin < 0 || begin > end || end > len(array) {
+				return nil, EXPECTATION_FAILED.Extend(fmt.Sprintf("failed to select range. (%d:%d) is out of range", begin, end))
+			}
+			return SelectDimension(array[begin:end], dimensions[1:])
 		}
 	case INDEX:
 		{
+			array, ok := data.([]any)
+			if !ok {
+				return nil, EXPECTATION_FAILED.Extend(fmt.Sprintf("failed to select index. expected an array but found %T", data))
+			}
 			index := index.GetIndex()
 			if index == -1 {
 				slice := make([]any, 0)
-				for _, item := range data.([]any) {
+				for _, item := range array {
 					rs, err := SelectDimension(item, dimensions[1:])
 					if err != nil {
 						return nil, err
@@ -357,7 +368,10 @@ func SelectDimension(data any, dimensions []*IndexSelector) (any, error) {
 				}
 				return slice, nil
 			}
-			return SelectDimension(data.([]any)[index], dimensions[1:])
+			if index < 0 || index >= len(array) {
+				return nil, EXPECTATION_FAILED.Extend(fmt.Sprintf("failed to select index. %d is out of range", index))
+			}
+			return SelectDimension(array[index], dimensions[1:])
 		}
 	default:
 		{
